@@ -81,17 +81,22 @@ class CCQR(QR):
         R = basis_matrix.conj().T.copy()
         p = np.arange(n)
         k = min(m, n)
+        # Next row of R to be eliminated. It only advances on non-zero pivots:
+        # a pivot with zero residual removes no direction from the other columns.
+        row = 0
 
         for j in range(k):
-            u, i_piv = qr_reflector(R[j:, j:], self.sensor_costs[p[j:]])
+            u, i_piv = qr_reflector(R[row:, j:], self.sensor_costs[p[j:]])
             # Track column pivots
             i_piv += j
             p[[j, i_piv]] = p[[i_piv, j]]
             # Switch columns
             R[:, [j, i_piv]] = R[:, [i_piv, j]]
-            # Apply reflector
-            R[j:, j:] -= np.outer(u, np.dot(u, R[j:, j:]))
-            R[j + 1 :, j] = 0
+            # Apply reflector (a no-op when u is the zero vector)
+            R[row:, j:] -= np.outer(u, np.dot(u, R[row:, j:]))
+            if np.any(u):
+                R[row + 1 :, j] = 0
+                row += 1
 
         self.pivots_ = p
 
@@ -137,7 +142,8 @@ def qr_reflector(r, costs):
         u[0] += np.sign(u[0]) + (u[0] == 0)
         u /= np.sqrt(abs(u[0]))
     else:
-        u = r[:, i_piv]
-        u[0] = np.sqrt(2)
+        # Zero residual: there is nothing to reflect. Return a fresh zero vector
+        # (not a view of r) so that applying the "reflector" changes nothing.
+        u = np.zeros(r.shape[0], dtype=r.dtype)
 
     return u, i_piv
